@@ -1,5 +1,5 @@
 #!/bin/bash
-# Developer command: run every check against every patch in selftest/mutants, selftest/benign and seeded/*/patch.diff
+# Developer command: run every check against every patch in selftest/mutants, selftest/benign, seeded/*/patch.diff and seeded_benign/*/patch.diff
 # on a scratch copy of /repo (never touches /repo or /verif/evidence). Writes selftest/MATRIX.md.
 # usage: selftest/matrix.sh [pattern]
 HERE="$(cd "$(dirname "$0")/.." && pwd)"
@@ -12,7 +12,7 @@ OUT="$HERE/selftest/MATRIX.md"
 CHECKS="C01 C02 C03 C04 C05 C06 C07 C08 C09 C10 C11 C12 C13 C14 C15 C16 C18 C19 C20"
 echo "| patch | kind | checks that fire (exit 1) | no verdict (exit 2) |" > "$OUT.tmp"
 echo "|---|---|---|---|" >> "$OUT.tmp"
-for P in selftest/mutants/*.patch selftest/benign/*.patch seeded/*/patch.diff; do
+for P in selftest/mutants/*.patch selftest/benign/*.patch seeded/*/patch.diff seeded_benign/*/patch.diff; do
   rm -rf "$HERE"/.work/facts-st_repo_$$-*
   [ -f "$P" ] || continue
   case "$P" in *"$PAT"*) ;; *) continue;; esac
@@ -24,7 +24,7 @@ for P in selftest/mutants/*.patch selftest/benign/*.patch seeded/*/patch.diff; d
     [ $rc -eq 1 ] && fired="$fired $c"
     [ $rc -eq 2 ] && nov="$nov $c"
   done
-  kind=mutant; case "$P" in *benign*) kind=benign;; seeded*) kind=seeded;; esac
+  kind=mutant; case "$P" in seeded_benign*) kind=benign-independent;; *benign*) kind=benign;; seeded*) kind=seeded;; esac
   echo "| $(echo $P | sed 's|selftest/||') | $kind |$fired |$nov |" >> "$OUT.tmp"
   echo "$P:$fired / noverdict:$nov"
 done
